@@ -522,6 +522,11 @@ Interval<To_Boundary, To_Info>::refine_universal(Relation_Symbol rel,
       if (lt(UPPER, upper(), info(), LOWER, f_lower(x), f_info(x))) {
         return combine(V_EQ, V_EQ);
       }
+      if (f_info(x).get_boundary_property(LOWER, SPECIAL)) {
+        // `x' is unbounded on that side: no value is in relation
+        // with all of its elements.
+        return assign(EMPTY);
+      }
       info().clear_boundary_properties(UPPER);
       Result ru = Boundary_NS::assign(UPPER, upper(), info(),
                                       LOWER, f_lower(x), SCALAR_INFO,
@@ -534,6 +539,11 @@ Interval<To_Boundary, To_Info>::refine_universal(Relation_Symbol rel,
       if (le(UPPER, upper(), info(), LOWER, f_lower(x), f_info(x))) {
         return combine(V_EQ, V_EQ);
       }
+      if (f_info(x).get_boundary_property(LOWER, SPECIAL)) {
+        // `x' is unbounded on that side: no value is in relation
+        // with all of its elements.
+        return assign(EMPTY);
+      }
       info().clear_boundary_properties(UPPER);
       Result ru = Boundary_NS::assign(UPPER, upper(), info(),
                                       LOWER, f_lower(x), SCALAR_INFO);
@@ -544,6 +554,11 @@ Interval<To_Boundary, To_Info>::refine_universal(Relation_Symbol rel,
     {
       if (gt(LOWER, lower(), info(), UPPER, f_upper(x), f_info(x))) {
         return combine(V_EQ, V_EQ);
+      }
+      if (f_info(x).get_boundary_property(UPPER, SPECIAL)) {
+        // `x' is unbounded on that side: no value is in relation
+        // with all of its elements.
+        return assign(EMPTY);
       }
       info().clear_boundary_properties(LOWER);
       Result rl = Boundary_NS::assign(LOWER, lower(), info(),
@@ -556,6 +571,11 @@ Interval<To_Boundary, To_Info>::refine_universal(Relation_Symbol rel,
     {
       if (ge(LOWER, lower(), info(), UPPER, f_upper(x), f_info(x))) {
         return combine(V_EQ, V_EQ);
+      }
+      if (f_info(x).get_boundary_property(UPPER, SPECIAL)) {
+        // `x' is unbounded on that side: no value is in relation
+        // with all of its elements.
+        return assign(EMPTY);
       }
       info().clear_boundary_properties(LOWER);
       Result rl = Boundary_NS::assign(LOWER, lower(), info(),
